@@ -150,6 +150,8 @@ class Tracer:
             self._install_debump()
         if "hbsched" in groups:
             self._install_hbsched()
+        if "patch" in groups:
+            self._install_patch()
 
     def _install_atoms(self):
         import pdb2pqr.aa as aa
@@ -682,6 +684,36 @@ class Tracer:
                 if name in klass.__dict__:
                     self._patch(klass, name, mk_meth(kind))
         self._patch(presidue.Residue, "has_atom", mk_has)
+
+    def _install_patch(self):
+        """Biomolecule.apply_patch on the level of names (spec ApplyPatch): name sets of the reference and of the residue before
+        and after, and what the patch says it adds / removes / renames"""
+        import pdb2pqr.biomolecule as bm
+
+        tr = self
+        tr.patch_calls = []
+
+        def make(orig):
+            def apply_patch(bio, patchname, residue, *xa, **xk):
+                rec = None
+                try:
+                    patch = bio.patch_map.get(patchname)
+                    if patch is not None and getattr(residue, "reference", None) is not None:
+                        rec = {"patch": str(patchname), "res": _rid(residue), "stage": tr.cur_stage,
+                               "ref0": [str(n) for n in residue.reference.map], "res0": [str(a.name) for a in residue.atoms],
+                               "add": [str(n) for n in patch.map], "rem": [str(n) for n in patch.remove],
+                               "alt": [[str(k), str(v)] for k, v in patch.altnames.items()]}
+                except Exception:  # noqa
+                    rec = None
+                r = orig(bio, patchname, residue, *xa, **xk)
+                if rec is not None:
+                    rec["ref1"] = [str(n) for n in residue.reference.map]
+                    rec["res1"] = [str(a.name) for a in residue.atoms]
+                    if len(tr.patch_calls) < 5000:
+                        tr.patch_calls.append(rec)
+                return r
+            return apply_patch
+        self._patch(bm.Biomolecule, "apply_patch", make)
 
     def _install_log(self):
         import logging
